@@ -162,6 +162,12 @@ func init() {
 		"vWindow": func(fr *frame, args []Value) Value { return nil },
 		"vJitter": func(fr *frame, args []Value) Value { return nil },
 		"vNative": func(fr *frame, args []Value) Value { return fr.ex.ctx.False },
+		"vLastTimerDuration": func(fr *frame, args []Value) Value {
+			if fr.ex.rt.lastArmed == nil {
+				return fr.ex.ctx.ConstS(64, -1<<63)
+			}
+			return fr.ex.rt.lastArmed
+		},
 		"vQuiesce": func(fr *frame, args []Value) Value {
 			g := fr.gor()
 			if g.id != 0 {
